@@ -127,6 +127,18 @@ def cells_rect(g, lvl, cells):
     return [g['bbox'][0] + min(xs) * r, g['bbox'][1] + min(ys) * r, g['bbox'][0] + (max(xs) + 1) * r, g['bbox'][1] + (max(ys) + 1) * r]
 
 
+class _Raised(object):
+    """stands for the response of a request that made the application raise"""
+    status_int = 599
+    status = '599 application raised'
+    content_type = 'text/plain'
+    headers = {}
+
+    def __init__(self, ex):
+        self.text = '%s: %s' % (type(ex).__name__, ex)
+        self.body = self.text.encode('utf8', 'replace')
+
+
 class LatticeApp(object):
     """MapProxyApp on one lattice grid: layer `lay` <- cache `c` (file) <- WMS source `up` (faked)"""
 
@@ -206,7 +218,10 @@ class LatticeApp(object):
         return buf
 
     def get(self, path, status='*', **kw):
-        return self.app.get(path, status=status, **kw)
+        try:
+            return self.app.get(path, status=status, expect_errors=True, **kw)
+        except Exception as ex:          # the application raised (or logged a traceback): a failed request, not a harness failure
+            return _Raised(ex)
 
     def image(self, resp):
         from PIL import Image
